@@ -36,6 +36,8 @@ class _Ctx:
         self.facts = []       # stub contracts / assumptions (part of the path condition)
         self.notes = []       # free-form per-path notes (recorders)
         self.fresh = []       # fresh constants introduced by nondeterministic stubs on this path
+        self.lits = []        # every constraint added to the solver, with its free symbols (constraint-independence slicing)
+        self.slice = None
 
 
 CTX = None
@@ -52,6 +54,7 @@ def assume(e):
         e = e.e
     CTX.solver.add(e)
     CTX.facts.append(e)
+    CTX.lits.append((e, _symbols(e)))
 
 
 def note(x):
@@ -65,6 +68,83 @@ _fresh = [0]
 def fresh(prefix):
     _fresh[0] += 1
     return "%s!%d" % (prefix, _fresh[0])
+
+
+_SYMS = {}
+
+
+def _symbols(e):
+    """ids of the uninterpreted constants / functions occurring in e (cached per term)"""
+    k = e.get_id()
+    hit = _SYMS.get(k)
+    if hit is not None and hit[0].eq(e):
+        return hit[1]
+    out = set()
+    seen = set()
+    stack = [e]
+    while stack:
+        t = stack.pop()
+        i = t.get_id()
+        if i in seen:
+            continue
+        seen.add(i)
+        if z3.is_app(t):
+            d = t.decl()
+            if d.kind() == z3.Z3_OP_UNINTERPRETED:
+                out.add(d.get_id())
+            stack.extend(t.children())
+        elif z3.is_quantifier(t):
+            stack.append(t.body())
+    out = frozenset(out)
+    _SYMS[k] = (e, out)
+    return out
+
+
+SLICING = True
+
+
+def _check_sliced(c, e):
+    """satisfiability of (path condition and e).  Only the constraints sharing symbols (transitively) with e are sent:
+    the rest is a satisfiable, independent conjunct (every path condition is kept satisfiable by construction), so the
+    answer is the same - KLEE's constraint-independence optimisation."""
+    if not SLICING or len(c.lits) < 4:
+        c.solver.push()
+        c.solver.add(e)
+        r = str(c.solver.check())
+        c.solver.pop()
+        return r
+    want = set(_symbols(e))
+    rest = c.lits
+    rel = []
+    changed = True
+    while changed and rest:
+        changed = False
+        keep = []
+        for lit in rest:
+            if lit[1] & want:
+                rel.append(lit[0])
+                if not lit[1] <= want:
+                    want |= lit[1]
+                    changed = True
+            else:
+                keep.append(lit)
+        rest = keep
+    if not rest:
+        c.solver.push()
+        c.solver.add(e)
+        r = str(c.solver.check())
+        c.solver.pop()
+        return r
+    if c.slice is None:
+        c.slice = z3.Solver()
+        c.slice.set("timeout", 20000)
+    sl = c.slice
+    sl.push()
+    sl.add(*rel)
+    sl.add(e)
+    r = str(sl.check())
+    sl.pop()
+    return r
 
 
 class SBool:
@@ -87,20 +167,14 @@ class SBool:
             d, forced = c.prefix[c.pos]
         else:
             t0 = time.time()
-            c.solver.push()
-            c.solver.add(self.e)
-            t = str(c.solver.check())
-            c.solver.pop()
+            t = _check_sliced(c, self.e)
             if t == "unknown":
                 STATS["branch_s"] += time.time() - t0
                 raise Unsupported("solver unknown at branch")
             if t == "unsat":
                 d, forced = False, True
             else:
-                c.solver.push()
-                c.solver.add(z3.Not(self.e))
-                f = str(c.solver.check())
-                c.solver.pop()
+                f = _check_sliced(c, z3.Not(self.e))
                 if f == "unknown":
                     STATS["branch_s"] += time.time() - t0
                     raise Unsupported("solver unknown at branch")
@@ -111,6 +185,7 @@ class SBool:
         c.pos += 1
         lit = self.e if d else z3.Not(self.e)
         c.solver.add(lit)
+        c.lits.append((lit, _symbols(lit)))
         if not forced:
             c.trail.append(lit)
         return d
@@ -328,6 +403,9 @@ class SInt:
                 self.pm &= o[2]
         else:
             _ORIGIN[e.get_id()] = (e, origin, self.pm)     # keeps the term alive: ids stay unique
+            es = z3.simplify(e)
+            if es.get_id() != e.get_id() and not z3.is_bv_value(es):
+                _ORIGIN[es.get_id()] = (es, origin, self.pm)    # the form it takes after a trip through SBytes/SStr
         self.origin = origin
 
     @staticmethod
@@ -644,13 +722,9 @@ def _forced(e):
     c = CTX
     if c is None:
         s = z3.Solver()
-    else:
-        s = c.solver
-    s.push()
-    s.add(z3.Not(e))
-    r = str(s.check())
-    s.pop()
-    return r == "unsat"
+        s.add(z3.Not(e))
+        return str(s.check()) == "unsat"
+    return _check_sliced(c, z3.Not(e)) == "unsat"
 
 
 def origin_of(term):
@@ -673,8 +747,17 @@ def elem_in(x, values):
         return ord(x) in values
     else:
         org, e = origin_of(x), x
+    tv = None
     if org is not None:
         tv = set(org[0].values)
+    else:
+        t = e
+        while z3.is_app_of(t, z3.Z3_OP_ZERO_EXT):
+            t = t.arg(0)
+        o = DIGIT_ORIGIN.get(t.get_id())
+        if o is not None and o[3].eq(t):
+            tv = set(range(48, 58))       # a digit character of a rendered number
+    if tv is not None:
         vs = set(values)
         if tv <= vs:
             return True
@@ -949,9 +1032,38 @@ def _classify_int_char(ch):
     return "x"
 
 
+#: 8-bit digit-character terms produced by the printf model: term id -> (value, weight, number of digits, term)
+DIGIT_ORIGIN = {}
+
+
+def _rendered_value(chars):
+    """if the characters are, term for term, the complete decimal rendering of one symbolic value (as produced by the
+    printf model under the path condition value < 10**k), that value: parse(render(v)) == v is the uniqueness of the
+    decimal representation, used here as a lemma instead of asking the solver to rediscover it"""
+    v0 = None
+    n = len(chars)
+    for pos, ch in enumerate(chars):
+        if not z3.is_expr(ch):
+            return None
+        t = z3.simplify(z3.Extract(7, 0, ch)) if ch.size() != 8 else ch
+        o = DIGIT_ORIGIN.get(t.get_id())
+        if o is None or not o[3].eq(t):
+            return None
+        if ch.size() != 8 and not _forced(z3.ULT(ch, 256)):
+            return None
+        v, i, k, _ = o
+        if k != n or i != n - 1 - pos or (v0 is not None and v is not v0):
+            return None
+        v0 = v
+    return v0
+
+
 def _parse_int(s):
     """int(text, 10) for symbolic text, modelling CPython exactly: surrounding (Unicode) whitespace, one sign, ASCII and
     Unicode decimal digits, single underscores between digits"""
+    v = _rendered_value(s.c) if len(s.c) else None
+    if v is not None:
+        return v
     toks = [_classify_int_char(ch) for ch in s.c]
     err = ValueError("invalid literal for int() with base 10")
     i, j = 0, len(toks)
